@@ -1,4 +1,4 @@
-HOOK_COMMITS = ["4d47cea", "08b09e0", "638d362", "9be4c8c", "faa97ab", "552021a"]
+HOOK_COMMITS = ["4d47cea", "08b09e0", "638d362", "9be4c8c", "faa97ab", "552021a", "27b6e74"]
 
 _PENDING = "no check registered yet: the model/theorems/correspondence for this property are not built at this commit (see DESIGN.md section 6 for the order of work)"
 NOT_APPLICABLE = {("C%02d" % i): _PENDING for i in range(1, 21)}
@@ -207,20 +207,24 @@ META = {
         "technique": "Coq proof (state invariants and history lemmas over event lists) + extracted-model-vs-listener correspondence; controller clauses by direct oracle (partial)",
     },
     "C19": {
-        "text": "Theorems (Coq, closed) about the model of the listener's SASL layer (Auth/SaslListener.v): whatever the client does, if the listener ever writes "
-                "outcome OK, the AMQP header or its open, or accept() returns a connection, the client's actions began with exactly the valid exchange; the first "
-                "action that departs from it fails the negotiation at once with an error from accept() and nothing granted. The model is run against the real "
-                "listener (PLAIN and three SCRAM variants) on abstracted scripts every run; concrete byte-level scripts (credential variants, malformed and "
-                "fragmented frames) and the SCRAM client against a scripted, tampering server are checked by the direct oracle.",
-        "design_ref": "DESIGN.md section 4, C19",
-        "note": "Trusted: Coq kernel, extraction, the harness's own SCRAM arithmetic (RFC vectors). Partial: no Coq model of the SCRAM client. Fixed defects: PLAIN "
-                "accepted extra NUL-separated fields; SCRAM listener accepted a second init (51ebee0).",
-        "technique": "Coq proof (induction over client action sequences) + extracted-model-vs-listener correspondence; client clauses by direct oracle only (partial)",
+        "text": "Theorems (Coq, closed). Listener (model Auth/SaslListener.v): whatever the client does, if the listener ever writes outcome OK, the AMQP header or its open, or accept() "
+                "returns a connection, the client's actions began with exactly the valid exchange; the first action that departs from it fails the negotiation at once with an error "
+                "from accept() and nothing granted. SCRAM client (model Auth/ScramClient.v): whatever the server sends, if the client ever writes the AMQP header or its open, or "
+                "open() returns a connection, the server's messages began with exactly the proving exchange (mechanisms offering the client's, a well-formed challenge whose nonce "
+                "extends the client's, outcome ok with the server signature computed from the password); the first message that departs from it fails at once with an error from "
+                "open() and nothing sent on; outcome ok without or with a wrong signature is refused. Both models are run against the real listener / client every run on "
+                "abstracted scripts; concrete byte-level scripts (credential variants, malformed, fragmented, out-of-turn frames, 45 server tamperings) are judged by the direct oracle.",
+        "design_ref": "DESIGN.md section 0.8, C19",
+        "note": "Trusted: Coq kernel, extraction, the harness's own SCRAM arithmetic (RFC vectors) which decides the validity class of a message. Fixed defects: PLAIN accepted extra "
+                "NUL-separated fields (6ee43ef); SCRAM listener accepted a second init (51ebee0). Known finding (C15): the iteration count the server names is not capped.",
+        "technique": "Coq proof (induction over client action / server message sequences) + extracted-model-vs-listener and -vs-client correspondence + direct oracle on byte-level scripts",
     },
     "C01": {
         "text": "Theorem (Coq, closed): for every message (any bytes, any length) and every frame size that leaves room for the transfer performatives, the frames "
                 "produced by the model of the sending session's split, fed to the model of the receiving link, yield nothing before the last frame and then exactly one "
-                "delivery with the message's bytes, id and tag. The two models are tied to the code by the C07 (split_transfer against model and encoder) and C10 (Receiver "
+                "delivery with the message's bytes, id and tag; and for every LIST of messages of any sizes and every automatic credit n >= 1, when the application calls recv(), "
+                "the frames of the next message arrive and the application accepts, over and over, the deliveries returned are exactly the messages sent, once each, in order, no "
+                "delivery is refused for lack of credit and the link is idle again after every round (C01_stream_intact: composes the cut, the reassembly and the credit replenishment). The two models are tied to the code by the C07 (split_transfer against model and encoder) and C10 (Receiver "
                 "against model) correspondences, re-run here; the composed real system (client, listener, both directions, re-chunked byte stream, generated "
                 "configurations) is checked end to end by a direct oracle every run.",
         "design_ref": "DESIGN.md section 4, C01",
